@@ -39,8 +39,6 @@ class ParallelGradient:
     """
 
     def __init__(self, spline: BSplines, eta_grid: list, layout: Layout, constants, order: int = 6):
-        # Save z step
-        self._dz = eta_grid[2][1]-eta_grid[2][0]
         # Save size in z direction
         self._nz = eta_grid[2].size
         self._nq = eta_grid[1].size
@@ -48,6 +46,10 @@ class ParallelGradient:
         # If there are too few points then the access cannot be optimised
         # at the boundaries in the way that has been used
         assert self._nz > order
+
+        # Save z step (the first point of a periodic grid may have been
+        # wrapped to the other end of the domain)
+        self._dz = eta_grid[2][2]-eta_grid[2][1]
 
         # Find the coefficients and shifts used to find the first derivative
         # of the correct order
